@@ -10,13 +10,14 @@ import (
 
 // Families of generated programs.
 const (
-	FamWire   = "wire"   // dependency graphs, no substitution
-	FamSubst  = "subst"  // wire + substituting post-processors
-	FamLife   = "life"   // observing processors, runners, lazy components
-	FamClose  = "close"  // closers
-	FamConfig = "config" // configuration sources and fields
-	FamEmbed  = "embed"  // twins: flat vs embedded, frame fields, custom scanners
-	FamRace   = "race"   // many components, custom scanners (parallel mode)
+	FamWire     = "wire"     // dependency graphs, no substitution
+	FamSubst    = "subst"    // wire + substituting post-processors
+	FamLife     = "life"     // observing processors, runners, lazy components
+	FamClose    = "close"    // closers
+	FamConfig   = "config"   // configuration sources and fields
+	FamCfgMerge = "cfgmerge" // configuration sources; fields never fail the start (precedence family)
+	FamEmbed    = "embed"    // twins: flat vs embedded, frame fields, custom scanners
+	FamRace     = "race"     // many components, custom scanners (parallel mode)
 )
 
 type rng struct{ *rand.Rand }
@@ -116,7 +117,9 @@ func Generate(seed uint64, id, family string) *sdl.Program {
 	case FamClose:
 		return genClose(r, seed, id)
 	case FamConfig:
-		return genConfig(r, seed, id)
+		return genConfig(r, seed, id, false)
+	case FamCfgMerge:
+		return genConfig(r, seed, id, true)
 	case FamEmbed:
 		return genEmbed(r, seed, id)
 	case FamRace:
